@@ -148,115 +148,256 @@ def install_then_request(rep):
               detail={"events": len(evs)})
 
 
-def row_coverage(rep):
-    """every input row is processed: the first one separately, the others in the sequential
-    pass, whose guard must not exclude a non-empty remainder"""
+def _strip_tqdm(node):
+    if isinstance(node, ast.Call) and unparse(node.func).split(".")[-1] == "tqdm" and node.args:
+        return node.args[0]
+    return node
+
+
+def row_pipeline(rep):
+    """table -> list of per-step rows -> processed rows -> one sort -> table again, decided on
+    the data flow with temporaries resolved (names do not matter):
+      remaining-rows / guard / collected   every input row is processed exactly once
+      sort                                 rows are reordered once, whole, by the temporal key
+      output-loop                          column k of the result is [row[k] for row in rows]
+      transpose                            rows are built from keys and values of one dict"""
+    from ..reading_rules import resolve, rtext
+    _r0 = resolve
     S = rep.sources
     fn = S.function(TIME, "over_time")
-    key = f"{TIME}::over_time::row-coverage"
-    full = "input_data_list"
-    first = [n for n in ast.walk(fn) if isinstance(n, ast.Call)
-             and unparse(n.func) == "process_single_timestep" and n.args
-             and unparse(n.args[0]) == f"{full}[0]"]
-    comps = [n for n in ast.walk(fn) if isinstance(n, ast.ListComp)
-             and "process_single_timestep" in unparse(n.elt)]
-    if not first or len(comps) != 1:
-        raise AnalysisError("over_time: per-step processing calls not found")
-    it = comps[0].generators[0].iter
-    src = it.args[0] if isinstance(it, ast.Call) and unparse(it.func) == "tqdm" else it
-    rest_names = {a.targets[0].id for a in ast.walk(fn) if isinstance(a, ast.Assign)
-                  and isinstance(a.targets[0], ast.Name)
-                  and unparse(a.value) == f"{full}[1:]"}
-    srct = unparse(src)
-    ok_src = srct == f"{full}[1:]" or srct in rest_names
-    rep.check(ok_src, "row-coverage", key + "::remaining-rows",
-              f"the sequential pass iterates `{srct}`, not all rows after the first", node=src)
+    base = f"{TIME}::over_time"
+
+    keep = set()
+
+    def R(n):
+        return rtext(fn, n, keep)
+    # ---- (1) dict of columns -> list of rows
+    tr = []
+    for n in ast.walk(fn):
+        if isinstance(n, ast.ListComp) and len(n.generators) == 1 \
+                and isinstance(n.elt, ast.Call) and unparse(n.elt.func) == "dict" \
+                and n.elt.args and isinstance(n.elt.args[0], ast.Call) \
+                and unparse(n.elt.args[0].func) == "zip":
+            tr.append(n)
+    if len(tr) != 1:
+        raise AnalysisError("over_time: the table -> rows transposition was not found")
+    comp = tr[0]
+    g = comp.generators[0]
+    zargs = comp.elt.args[0].args
+    it = _r0(fn, g.iter)
+    src = None
+    if isinstance(it, ast.Call) and unparse(it.func) == "zip" and it.args \
+            and isinstance(it.args[0], ast.Starred):
+        m = re.fullmatch(r"(\w+)\.values\(\)", unparse(it.args[0].value))
+        src = m.group(1) if m else None
+    ktxt = R(zargs[0]) if zargs else ""
+    if zargs and isinstance(zargs[0], ast.Name) and ktxt == zargs[0].id:
+        # several bindings of that name: the closest one before the transposition counts
+        cands = [a for a in ast.walk(fn) if isinstance(a, ast.Assign)
+                 and unparse(a.targets[0]) == ktxt and a.lineno <= comp.lineno]
+        if cands:
+            ktxt = R(max(cands, key=lambda a: a.lineno).value)
+    ok3 = src is not None and len(zargs) >= 2 and unparse(zargs[1]) == unparse(g.target) \
+        and ktxt in (f"{src}.keys()", f"list({src}.keys())", f"list({src})", src)
+    rep.check(ok3, "rows-move-together", f"{base}::transpose",
+              "rows must be built by zipping data.keys() with the transposed data.values() of "
+              "the same dict", node=comp)
+    st = comp
+    while not isinstance(st, ast.stmt):
+        st = st._parent
+    if not (isinstance(st, ast.Assign) and isinstance(st.targets[0], ast.Name)):
+        raise AnalysisError("over_time: the list of rows is not bound to a name")
+    L = st.targets[0].id
+    keep.add(L)
+    _resolve = resolve
+
+    def resolve(f, n):      # noqa: F811  (the list of rows stays a name)
+        return _resolve(f, n, 0, keep)
+    # ---- (2) processing calls
+    calls = [n for n in ast.walk(fn) if isinstance(n, ast.Call)
+             and unparse(n.func) == "process_single_timestep" and n.args]
+    first = [c for c in calls if unparse(c.args[0]) == f"{L}[0]"]
+    rest = []
+    for c in calls:
+        p = c._parent
+        if isinstance(p, ast.ListComp) and p.elt is c and len(p.generators) == 1 \
+                and unparse(p.generators[0].target) == unparse(c.args[0]):
+            rest.append(p)
+        # loop form:  for item in L[1:]: rows += [process_single_timestep(item, ...)]
+        q = c
+        while q is not None and q is not fn and not isinstance(q, ast.For):
+            q = getattr(q, "_parent", None)
+        if isinstance(q, ast.For) and unparse(q.target) == unparse(c.args[0]) \
+                and not isinstance(p, ast.ListComp):
+            rest.append(q)
+    if len(first) != 1 or len(rest) != 1 or len(calls) != 2:
+        raise AnalysisError("over_time: per-step processing calls not found "
+                            f"({len(first)} first, {len(rest)} remaining, {len(calls)} calls)")
+    rnode = rest[0]
+    riter = rnode.generators[0].iter if isinstance(rnode, ast.ListComp) else rnode.iter
+    srct = R(_strip_tqdm(resolve(fn, riter)))
+    Ltxt = L
+    rep.check(srct == f"{Ltxt}[1:]", "row-coverage", f"{base}::row-coverage::remaining-rows",
+              f"the sequential pass iterates `{srct}`, not all rows after the first",
+              node=riter)
     guard = None
-    p = getattr(comps[0], "_parent", None)
+    p = getattr(rnode, "_parent", None)
     while p is not None and p is not fn:
         if isinstance(p, ast.If):
             guard = p
             break
         p = getattr(p, "_parent", None)
-    ok = guard is None
-    why = ""
+    ok, why = guard is None, ""
     if guard is not None:
-        t = guard.test
-        tt = unparse(t)
-        if isinstance(t, ast.Name) and t.id in rest_names:
+        t = resolve(fn, guard.test)
+        tt = unparse(guard.test)
+        if unparse(t) == f"{Ltxt}[1:]":
             ok = True
         elif isinstance(t, ast.Compare) and len(t.ops) == 1 and isinstance(t.left, ast.Call) \
                 and unparse(t.left.func) == "len":
             arg = unparse(t.left.args[0])
             c = const_value(t.comparators[0])
             op = type(t.ops[0]).__name__
-            bound = {"Gt": c, "GtE": c - 1 if c is not None else None,
-                     "NotEq": c}.get(op)
-            if arg == full:
+            bound = {"Gt": c, "GtE": c - 1 if c is not None else None, "NotEq": c}.get(op)
+            if arg == Ltxt:
                 ok = bound == 1
-            elif arg in rest_names or arg == f"{full}[1:]":
+            elif arg == f"{Ltxt}[1:]":
                 ok = bound == 0
+        else:
+            raise AnalysisError("over_time: guard of the sequential pass not understood: " + tt)
         why = (f"the guard `{tt}` skips the sequential pass although rows remain (e.g. a table "
                "with exactly two time steps loses its second row)")
-    rep.check(ok, "row-coverage", key + "::guard", why, node=guard or fn)
-    # and the results are all appended
-    ok = any(isinstance(n, ast.AugAssign) and unparse(n.target) == "data_list"
-             and unparse(n.value) == "results" for n in ast.walk(fn))
-    rep.check(ok, "row-coverage", key + "::collected",
-              "the results of the sequential pass must all be added to the row list", node=fn)
-
-
-def rows(rep):
-    S = rep.sources
-    fn = S.function(TIME, "over_time")
-    sorts = [n for n in ast.walk(fn) if isinstance(n, ast.Call)
-             and (unparse(n.func) in ("sorted", "np.argsort", "np.sort", "reversed", "np.flip",
-                                      "random.shuffle")
-                  or (isinstance(n.func, ast.Attribute) and n.func.attr in ("sort",
-                                                                            "reverse")))
-             and "data_list" in unparse(n)]
-    ok = len(sorts) == 1 and unparse(sorts[0].func) == "sorted" \
-        and unparse(sorts[0].args[0]) == "data_list"
-    if ok:
-        kw = {k.arg: k.value for k in sorts[0].keywords}
-        key = kw.get("key")
-        ok = isinstance(key, ast.Lambda) and len(key.args.args) == 1 \
-            and unparse(key.body) == f"{key.args.args[0].arg}[temporal_key]" \
-            and "reverse" not in kw
-    rep.check(ok, "rows-move-together", f"{TIME}::over_time::sort",
+    rep.check(ok, "row-coverage", f"{base}::row-coverage::guard", why, node=guard or fn)
+    # ---- (3) one whole-row sort
+    reorder = [n for n in ast.walk(fn) if isinstance(n, ast.Call)
+               and (unparse(n.func) in ("sorted", "np.argsort", "np.sort", "reversed", "np.flip",
+                                        "random.shuffle")
+                    or (isinstance(n.func, ast.Attribute)
+                        and n.func.attr in ("sort", "reverse")))]
+    # only those acting on row lists: their operand is a list whose elements are step results
+    rowsort = [n for n in reorder if unparse(n.func) == "sorted" and n.args
+               and isinstance(n.args[0], ast.Name)
+               and any(isinstance(k.value, ast.Lambda) for k in n.keywords)]
+    if len(rowsort) != 1:
+        raise AnalysisError("over_time: the sort of the per-step rows was not found")
+    srt = rowsort[0]
+    N = srt.args[0].id
+    others = [n for n in reorder if n is not srt and N in unparse(n)]
+    kw = {k.arg: k.value for k in srt.keywords}
+    key = kw.get("key")
+    ok = isinstance(key, ast.Lambda) and len(key.args.args) == 1 \
+        and unparse(key.body) == f"{key.args.args[0].arg}[temporal_key]" \
+        and "reverse" not in kw and not others
+    rep.check(ok, "rows-move-together", f"{base}::sort",
               "the list of per-step rows must be reordered exactly once, by "
-              "sorted(data_list, key=lambda x: x[temporal_key])", node=sorts[0] if sorts else fn)
-    # output loop
-    appends = [n for n in ast.walk(fn) if isinstance(n, ast.Call)
-               and isinstance(n.func, ast.Attribute) and n.func.attr == "append"
-               and unparse(n.func.value).startswith("data[")]
-    ok2 = False
-    node = fn
-    for a in appends:
-        node = a
-        loops = []
-        p = getattr(a, "_parent", None)
-        while p is not None and p is not fn:
-            if isinstance(p, ast.For):
-                loops.append(p)
-            p = getattr(p, "_parent", None)
-        if len(loops) == 2:
-            inner, outer = loops
-            kv, iv = unparse(inner.target), unparse(outer.target)
-            ok2 = unparse(a.func.value) == f"data[{kv}]" \
-                and unparse(a.args[0]) == f"data_list_sorted[{iv}][{kv}]" \
-                and unparse(outer.iter) == "range(len(data_list_sorted))"
-    rep.check(ok2, "rows-move-together", f"{TIME}::over_time::output-loop",
-              "every output column must receive rows[i][key] for the same i, in row order",
+              "sorted(rows, key=lambda x: x[temporal_key])", node=srt)
+    # ---- (4) every processed row reaches the list that is sorted
+    init = [a for a in ast.walk(fn) if isinstance(a, ast.Assign)
+            and unparse(a.targets[0]) == N]
+    first_st = first[0]
+    while not isinstance(first_st, ast.stmt):
+        first_st = first_st._parent
+    fnames = set()
+    if isinstance(first_st, ast.Assign):
+        t0 = first_st.targets[0]
+        fnames = {unparse(t0.elts[0])} if isinstance(t0, ast.Tuple) else {unparse(t0)}
+    ok_first = any(isinstance(a.value, ast.List) and len(a.value.elts) == 1
+                   and (unparse(a.value.elts[0]) in fnames
+                        or R(a.value.elts[0]).startswith("process_single_timestep("))
+                   for a in init)
+    ok_rest = False
+    for n in ast.walk(fn):
+        val = None
+        if isinstance(n, ast.AugAssign) and isinstance(n.op, ast.Add) \
+                and unparse(n.target) == N:
+            val = n.value
+        elif isinstance(n, ast.Call) and unparse(n.func) == f"{N}.extend" and n.args:
+            val = n.args[0]
+        elif isinstance(n, ast.Assign) and unparse(n.targets[0]) == N \
+                and isinstance(n.value, ast.BinOp) and isinstance(n.value.op, ast.Add) \
+                and unparse(n.value.left) == N:
+            val = n.value.right
+        if val is None:
+            continue
+        v = resolve(fn, val)
+        if isinstance(rnode, ast.ListComp) and isinstance(v, ast.ListComp) \
+                and unparse(v) == R(rnode):
+            ok_rest = True
+        if isinstance(rnode, ast.For) and any(n is x for x in ast.walk(rnode)) \
+                and isinstance(v, ast.List) and len(v.elts) == 1 \
+                and unparse(v.elts[0]).startswith("process_single_timestep("):
+            ok_rest = True
+    rep.check(ok_first and ok_rest, "row-coverage", f"{base}::row-coverage::collected",
+              "the result of the first step and the results of the sequential pass must all be "
+              "added to the list of rows that is sorted", node=fn)
+    # ---- (5) rows -> columns: column k is [row[k] for row in sorted rows], in row order
+    st = srt
+    while not isinstance(st, ast.stmt):
+        st = st._parent
+    if not (isinstance(st, ast.Assign) and isinstance(st.targets[0], ast.Name)):
+        raise AnalysisError("over_time: the sorted rows are not bound to a name")
+    SR = st.targets[0].id
+    cells = []
+    for n in ast.walk(fn):
+        if isinstance(n, ast.Subscript) and isinstance(n.ctx, ast.Load):
+            rowexpr = n.value
+            # rows[i][k]
+            if isinstance(rowexpr, ast.Subscript) and unparse(rowexpr.value) == SR:
+                cells.append((n, "index", rowexpr.slice, n.slice))
+            elif isinstance(rowexpr, ast.Name):
+                # row variable of a loop / comprehension over the sorted rows
+                q = n
+                while q is not None and q is not fn:
+                    gens = q.generators if isinstance(q, (ast.ListComp, ast.GeneratorExp)) else []
+                    for gg in gens:
+                        if unparse(gg.target) == rowexpr.id and unparse(gg.iter) == SR:
+                            cells.append((n, "direct", gg, n.slice))
+                    if isinstance(q, ast.For) and unparse(q.target) == rowexpr.id \
+                            and unparse(q.iter) == SR:
+                        cells.append((n, "direct", q, n.slice))
+                    q = getattr(q, "_parent", None)
+    cells = [c for c in cells if "keys" not in unparse(c[0]) or True]
+    # the cell reads that feed the output (not `rows[0].keys()`)
+    cells = [c for c in cells if not (isinstance(c[0]._parent, ast.Attribute))]
+    if not cells:
+        raise AnalysisError("over_time: the rows -> columns loop was not found")
+    ok2, node = True, cells[0][0]
+    for cell, kind, rowref, kslice in cells:
+        node = cell
+        kv = unparse(kslice)
+        # the row index / row variable runs over the sorted rows in their order
+        if kind == "index":
+            iv = unparse(rowref)
+            q, found = cell, False
+            while q is not None and q is not fn:
+                gens = q.generators if isinstance(q, (ast.ListComp, ast.GeneratorExp)) else []
+                for gg in gens:
+                    if unparse(gg.target) == iv:
+                        found = unparse(gg.iter) == f"range(len({SR}))"
+                if isinstance(q, ast.For) and unparse(q.target) == iv:
+                    found = unparse(q.iter) == f"range(len({SR}))"
+                q = getattr(q, "_parent", None)
+            ok2 = ok2 and found
+        # the value lands in the column of the same key
+        q, landed = cell, None
+        while q is not None and q is not fn and landed is None:
+            par = getattr(q, "_parent", None)
+            if isinstance(par, ast.AugAssign) and isinstance(par.target, ast.Subscript):
+                landed = unparse(par.target.slice)
+            elif isinstance(par, ast.Assign) and isinstance(par.targets[0], ast.Subscript) \
+                    and par.value is q:
+                landed = unparse(par.targets[0].slice)
+            elif isinstance(par, ast.DictComp) and par.value is q:
+                landed = unparse(par.key)
+            elif isinstance(par, ast.Call) and isinstance(par.func, ast.Attribute) \
+                    and par.func.attr == "append" and isinstance(par.func.value, ast.Subscript) \
+                    and par.args and par.args[0] is q:
+                landed = unparse(par.func.value.slice)
+            q = par
+        ok2 = ok2 and landed == kv
+    rep.check(ok2, "rows-move-together", f"{base}::output-loop",
+              "every output column must receive rows[i][key] for the same key, in row order",
               node=node)
-    # dict-of-lists -> list-of-dicts uses keys and values of the same dict
-    comp = [n for n in ast.walk(fn) if isinstance(n, ast.ListComp) and "zip(keys, values"
-            in unparse(n)]
-    ok3 = bool(comp) and "zip(*data.values()" in unparse(comp[0]) and any(
-        isinstance(n, ast.Assign) and unparse(n) == "keys = data.keys()" for n in ast.walk(fn))
-    rep.check(ok3, "rows-move-together", f"{TIME}::over_time::transpose",
-              "rows must be built by zipping data.keys() with the transposed data.values() of "
-              "the same dict", node=comp[0] if comp else fn)
 
 
 BASE = {"max": ("np.max", None), "mean": ("np.mean", None), "min": ("np.min", None),
@@ -369,13 +510,77 @@ def estimate_columns(rep):
 
 
 def skip_present(rep):
+    """Idempotence of successive calls: which requests are dropped because their result is
+    already in the table.  Decided on canonical quantifier forms of the gating conditions
+    (boolnorm): a variable is (re)computed iff it is not in the table; when new variables are
+    computed every estimate is applied; in an estimates-only call an estimate is kept iff
+    *some* scalar column lacks it."""
+    from .. import boolnorm as B
     S = rep.sources
     fn = S.function(TIME, "over_time")
-    txt = unparse(fn)
-    ok = "if v not in data" in txt and "if func_name not in data" in txt
-    rep.check(ok, "skip-present", f"{TIME}::over_time::cleaned_vars",
-              "variables already present in the table must be skipped (idempotence of "
-              "successive calls)", node=fn)
+    B.FUNCS.clear()
+    B.FUNCS.update({f.name: f for f in S.module(TIME).body if isinstance(f, ast.FunctionDef)})
+    for par in ast.walk(fn):
+        for ch in ast.iter_child_nodes(par):
+            ch._parent = par
+    key = f"{TIME}::over_time"
+
+    def appended(node, lst):
+        """node appends one element to list `lst` -> element expression"""
+        if isinstance(node, ast.AugAssign) and isinstance(node.op, ast.Add) \
+                and unparse(node.target) == lst and isinstance(node.value, ast.List) \
+                and len(node.value.elts) == 1:
+            return node.value.elts[0]
+        if isinstance(node, ast.Expr) and isinstance(node.value, ast.Call) \
+                and unparse(node.value.func) == lst + ".append" and len(node.value.args) == 1:
+            return node.value.args[0]
+        return None
+
+    def req_name(el):
+        if isinstance(el, ast.Name):
+            return el.id
+        if isinstance(el, ast.Dict) and len(el.keys) == 1 and isinstance(el.keys[0], ast.Name):
+            return el.keys[0].id
+        raise AnalysisError("over_time: appended request not understood: " + unparse(el))
+
+    sites_v = [(n, appended(n, "cleaned_vars")) for n in ast.walk(fn)]
+    sites_v = [(n, e) for n, e in sites_v if e is not None]
+    sites_e = [(n, appended(n, "cleaned_estimates")) for n in ast.walk(fn)]
+    sites_e = [(n, e) for n, e in sites_e if e is not None]
+    if len(sites_v) < 2 or len(sites_e) < 4:
+        raise AnalysisError("over_time: the request-cleaning appends were not found")
+    for n, e in sites_v:
+        nm = req_name(e)
+        conds = [f for f, _ in B.path_conditions(n)]
+        want = ("not", ("in", (("v", nm),), "data"))
+        rep.check(want in conds, "skip-present", f"{key}::vars::{nm}",
+                  f"the requested variable `{nm}` must be computed iff it is not yet in the "
+                  f"table; conditions on the way to `{norm_src(n)}`: "
+                  + "; ".join(repr(c) for c in conds if B.mentions(c, "data")), node=n)
+    for n, e in sites_e:
+        nm = req_name(e)
+        conds = [f for f, _ in B.path_conditions(n)]
+        newvars = ("nonempty", "vars") in conds or ("truthy", "vars") in conds
+        estonly = ("not", ("nonempty", "vars")) in conds or ("not", ("truthy", "vars")) in conds
+        if newvars == estonly:
+            raise AnalysisError("over_time: cannot tell whether `" + norm_src(n)
+                                + "` is on the new-variables or the estimates-only path")
+        about_data = [c for c in conds if B.mentions(c, "data")]
+        if newvars:
+            rep.check(not about_data, "skip-present", f"{key}::estimates(new vars)::{nm}",
+                      "when new variables are computed every requested estimate must be "
+                      "applied to them; this one is filtered by the table's contents: "
+                      + "; ".join(map(repr, about_data)), node=n)
+        else:
+            want = ("exists", "$v", "scalarkeys",
+                    ("not", ("in", (("v", "$v"), ("s", "_"), ("v", nm)), "data")))
+            rep.check(about_data == [want], "skip-present",
+                      f"{key}::estimates(only)::{nm}",
+                      f"in an estimates-only call `{nm}` must be kept iff some scalar column "
+                      f"lacks `<scalar>_{nm}`; found: "
+                      + ("; ".join(map(repr, about_data)) or "no condition on the table"),
+                      node=n)
+    # scalarkeys of the estimates-only path: the columns holding 3D arrays
     for q in ("over_time", "process_single_timestep"):
         f = S.function(TIME, q)
         bad = [n for n in ast.walk(f) if (isinstance(n, ast.Delete) and any(
@@ -401,8 +606,7 @@ def run(rep):
     c03.freeze_before_use(rep)
     c03.freeze_rules(rep)
     install_then_request(rep)
-    row_coverage(rep)
-    rows(rep)
+    row_pipeline(rep)
     estimator_table(rep)
     estimate_columns(rep)
     skip_present(rep)
